@@ -103,3 +103,7 @@ package conan
 // an AND group of comparator constraints treats versions that compare equal alike, and so does an OR of such groups
 //@ lemma c20-group-equal [C20] uses c20-equal: forall r *VersionRange, group []constraint, v1, v2 *Version :: r != nil && v1 != nil && v2 != nil && (forall i int :: 0 <= i && i < len(group) ==> cmpOp(group[i])) && v1.Compare(v2) == 0 ==> ((forall i int :: 0 <= i && i < len(group) ==> r.constraintSatisfied(group[i], v1)) == (forall i int :: 0 <= i && i < len(group) ==> r.constraintSatisfied(group[i], v2)))
 //@ lemma c20-range-equal [C20] uses c20-equal: forall r *VersionRange, v1, v2 *Version :: r != nil && v1 != nil && v2 != nil && (forall g int :: 0 <= g && g < len(r.orGroups) ==> (forall i int :: 0 <= i && i < len(r.orGroups[g]) ==> cmpOp(r.orGroups[g][i]))) && v1.Compare(v2) == 0 ==> ((exists g int :: 0 <= g && g < len(r.orGroups) && (forall i int :: 0 <= i && i < len(r.orGroups[g]) ==> r.constraintSatisfied(r.orGroups[g][i], v1))) == (exists g int :: 0 <= g && g < len(r.orGroups) && (forall i int :: 0 <= i && i < len(r.orGroups[g]) ==> r.constraintSatisfied(r.orGroups[g][i], v2))))
+
+// ---- the registered name (the VERS evaluator and the CLI select behaviour by it)
+//@ func (*Ecosystem).Name
+//@   ensures result == "conan"   [C04 C15 C17]
